@@ -43,6 +43,15 @@ pub fn case_record_with(tier: Tier, seed: u64, idx: u64, fixed: Option<&Scenario
     s.precompiles.clear();
     if rng.chance(1, 2) {
         workload::add_second_block(&mut s, gen_seed);
+        // a third of the two-block histories go on for a third and (half of those) a fourth block; decided by
+        // a value derived from (seed, idx) alone, so the shorter histories are what they were before
+        let more = derive(seed, 0x4159_0000 ^ idx);
+        if more % 3 == 0 {
+            workload::add_later_block(&mut s, gen_seed);
+            if (more / 3) % 2 == 0 {
+                workload::add_later_block(&mut s, gen_seed);
+            }
+        }
     }
     if let Some(f) = fixed {
         s = f.clone();
@@ -75,6 +84,7 @@ pub fn case_record_with(tier: Tier, seed: u64, idx: u64, fixed: Option<&Scenario
     if let Some((b2, t2)) = &s.second {
         blocks.push((b2.clone(), t2.clone()));
     }
+    blocks.extend(s.later.iter().cloned());
     let mut commits = 0u64;
     'outer: for (bi, (block, txs)) in blocks.iter().enumerate() {
         // split the block into 1-3 segments with balance operations and reads in between
@@ -253,6 +263,9 @@ pub fn case_record_with(tier: Tier, seed: u64, idx: u64, fixed: Option<&Scenario
     stats.nontrivial = ops_log.len() > 3;
     stats.txs = commits as usize;
     stats.workload = vec![("probe.history_commits", commits), ("probe.history_operations", ops_log.len() as u64)];
+    if blocks.len() > 2 {
+        stats.workload.push(("probe.history_three_or_more_blocks", 1));
+    }
     let sample = (idx < 2).then(|| json!({"component": "history-differential", "profile": s.profile, "operations": ops_log}));
     (CaseRecord { idx, findings, harness_errors: vec![], stats, sample, group: "history-differential" }, s)
 }
